@@ -90,6 +90,23 @@ let handle_score line kind args obs =
       bump "neginv";
       if score_str a <> obs then report_spec line (with_key (key_of [-128] [a]) (score_str a))
     end
+  | "hctor", [bits] ->
+    (* HeuristicScore(v) carries exactly v (every float32 but NaN has its place on the line) *)
+    let b = int_of_string ("0x" ^ bits) in
+    let nan = (b land 0x7f800000) = 0x7f800000 && (b land 0x007fffff) <> 0 in
+    if not nan then begin
+      bump "hctor";
+      let expect = Printf.sprintf "1 %x" b in
+      if String.trim obs <> expect then report_spec line ("constructor not faithful: expected " ^ expect)
+    end
+  | "neglit", [bits] ->
+    let b = int_of_string ("0x" ^ bits) in
+    let nan = (b land 0x7f800000) = 0x7f800000 && (b land 0x007fffff) <> 0 in
+    if not nan then begin
+      bump "neglit";
+      let expect = Printf.sprintf "1 0 %d" b in
+      if String.trim obs <> expect then report_spec line ("negating a heuristic score twice: expected " ^ expect)
+    end
   | _ -> failwith ("unknown score case: " ^ line)
 
 let handle line =
@@ -103,7 +120,7 @@ let handle line =
      | kind :: args ->
        incr cases;
        (match kind with
-        | "less" | "negate" | "inc" | "max" | "min" | "negrev" | "incmono" | "neginv" -> handle_score line kind args obs
+        | "less" | "negate" | "inc" | "max" | "min" | "negrev" | "incmono" | "neginv" | "hctor" | "neglit" -> handle_score line kind args obs
         | _ -> Dispatch.handle line kind args obs))
 
 let () =
